@@ -1,11 +1,12 @@
 """C07: compatible preferred candidates are selected exactly."""
 import vlib
-from props import solverstream as ss, tracecheck as tc
+from props import solverstream as ss, tracecheck as tc, antie
 
-THEOREMS = ["C07_oracle_sound", "C07_run_invariant", "C07_greedy_exact", "C07_trace_greedy"]
+THEOREMS = ["C07_oracle_sound", "C07_run_invariant", "C07_greedy_exact", "C07_trace_greedy", "C07_decide_legal"]
 CHECKER = ("coqc Props/C07.v + Print Assumptions; harness solve_cases: (a) hook logs -> extracted check_sat_log (rule D1 "
            "enforced on every decision; theorem C07_trace_greedy), (b) whenever extracted o_greedy = Some G the returned "
-           "set must equal G")
+           "set must equal G, (c) hook logs -> extracted check_decides: every call of Solver::decide must propose the candidate and "
+           "clause the decide model proposes (hypotheses of C07_decide_legal evaluated at every call)")
 
 
 def run(res, tier, seed, replay):
@@ -29,7 +30,13 @@ def run(res, tier, seed, replay):
         recs += r2
     ref = ss.oracle_ref(recs)
     tc.annotate(recs)
+    antie.annotate_decides(recs)
     applicable = 0
+    for r in recs:
+        if not antie.ok_decides(r):
+            res.tie_break(f"decide correspondence no longer checks for a run in {r['stream']}: a call of Solver::decide proposed a "
+                          f"different candidate / clause than the model (Cdcl/Decide.v), or a hypothesis of C07_decide_legal fails: "
+                          f"{r['decides']}", dict(tc.trace_replay(r), decides=r["decides"]))
     for r in recs:
         key = r["key"]
         g = ref[key]["greedy"]
@@ -51,5 +58,7 @@ def run(res, tier, seed, replay):
     res.rule = ("conflict-free-by-construction universes (chains, diamonds, cycles, unions, favored, hint masks) plus the "
                 "general streams; the check applies when the Coq-verified greedy_okb accepts the closure (counted as "
                 "'applicable'); non-trivial = applicable with |G| >= 3")
+    dd = [r["decides"] for r in recs if "decides" in r and "n" in r["decides"]]
+    res.extra.update({"runs_replayed_through_decide_model": len(dd), "decide_calls_compared": sum(x["n"] for x in dd)})
     res.extra.update({"applicable": applicable, "hangs": len(hangs)}, **tc.stats(recs))
     return res.finish(CHECKER, vlib.TRUSTED_BASE, [])
